@@ -332,3 +332,132 @@ def desugar(tree):
     tree = c.visit(tree)
     ast.fix_missing_locations(tree)
     return tree, d.count + i.count + c.count
+
+
+def normalise_keywords(trees):
+    """Keyword arguments of calls to the library's own functions -> positional, project-wide.
+
+    A call  X.m(a, k=v)  (or  m(a, k=v)) is rewritten to  X.m(a, v)  when every function named m in the
+    project that accepts all the keywords used places them at the same positions, and the positional
+    list that results has no gap.  Engines then see one calling convention.  Calls that cannot be
+    resolved this way are left alone.  Returns the number of calls rewritten."""
+    sigs = {}
+    for tree in trees:
+        for n in ast.walk(tree):
+            if isinstance(n, ast.ClassDef):
+                for st in n.body:
+                    if isinstance(st, ast.FunctionDef):
+                        ps = [a.arg for a in st.args.args]
+                        static = any(isinstance(d, ast.Name) and d.id == "staticmethod" for d in st.decorator_list)
+                        if not static and ps:
+                            ps = ps[1:]
+                        if st.name == "__init__":
+                            sigs.setdefault("<ctor>" + n.name, []).append((ps, bool(st.args.vararg or st.args.kwarg)))
+                        sigs.setdefault(st.name, []).append((ps, bool(st.args.vararg or st.args.kwarg)))
+        for st in tree.body:
+            if isinstance(st, ast.FunctionDef):
+                sigs.setdefault(st.name, []).append(([a.arg for a in st.args.args], bool(st.args.vararg or st.args.kwarg)))
+    count = 0
+    for tree in trees:
+        for n in ast.walk(tree):
+            if not isinstance(n, ast.Call) or not n.keywords or any(k.arg is None for k in n.keywords) or any(isinstance(a, ast.Starred) for a in n.args):
+                continue
+            f = n.func
+            name = f.attr if isinstance(f, ast.Attribute) else (f.id if isinstance(f, ast.Name) else None)
+            if name is None:
+                continue
+            explicit_self = 0
+            if name == "__init__" and isinstance(f, ast.Attribute):
+                # Base.__init__(self, ...): the receiver is passed explicitly
+                cname = f.value.attr if isinstance(f.value, ast.Attribute) else (f.value.id if isinstance(f.value, ast.Name) else None)
+                cands = sigs.get("<ctor>" + cname, []) if cname else []
+                explicit_self = 0 if (isinstance(f.value, ast.Call)) else 1
+            elif isinstance(f, ast.Name) and ("<ctor>" + name) in sigs:
+                cands = sigs["<ctor>" + name]
+            else:
+                cands = sigs.get(name, [])
+            kws = [k.arg for k in n.keywords]
+            cands = [ps for ps, var in cands if not var and all(k in ps for k in kws)]
+            if not cands:
+                continue
+            pos = {k: {ps.index(k) for ps in cands} for k in kws}
+            if any(len(v) != 1 for v in pos.values()):
+                continue
+            npos = len(n.args) - explicit_self
+            want = sorted((next(iter(pos[k])), k) for k in kws)
+            if [i for i, _ in want] != list(range(npos, npos + len(want))):
+                continue
+            byname = {k.arg: k.value for k in n.keywords}
+            n.args = list(n.args) + [byname[k] for _, k in want]
+            n.keywords = []
+            count += 1
+    return count
+
+
+def canonical_roles(trees):
+    """Private bookkeeping attributes of the iterative solver, identified by ROLE through the public
+    accessors the properties name (`nit()`, `totnit()`) and renamed to the canonical spelling the rules use:
+
+        counter  = the attribute `nit()` returns                          -> _nit
+        offset   = the other operand of `totnit()`'s  counter + offset     -> _itstart
+        time     = the attribute `_solve` assigns from <state>.time        -> _time
+
+    so that a maintainer's rename of a private attribute changes nothing for the analysis.  Only
+    `self.<attr>` accesses are renamed, only when the canonical name is not already used for something
+    else.  Returns {old: canonical}."""
+    def self_attr(e, sn):
+        return e.attr if isinstance(e, ast.Attribute) and isinstance(e.value, ast.Name) and e.value.id == sn else None
+
+    def single_return(fn):
+        body = [st for st in fn.body if not (isinstance(st, ast.Expr) and isinstance(st.value, ast.Constant))]
+        return body[0].value if len(body) == 1 and isinstance(body[0], ast.Return) else None
+    funcs = {}
+    for tree in trees:
+        for n in ast.walk(tree):
+            if isinstance(n, ast.ClassDef):
+                for st in n.body:
+                    if isinstance(st, ast.FunctionDef) and st.name in ("nit", "totnit", "_solve") and st.args.args:
+                        funcs.setdefault(st.name, []).append(st)
+    ren = {}
+    counter = None
+    if len(funcs.get("nit", [])) == 1:
+        fn = funcs["nit"][0]
+        r = single_return(fn)
+        counter = self_attr(r, fn.args.args[0].arg) if r is not None else None
+        if counter and counter != "_nit":
+            ren[counter] = "_nit"
+    if counter and len(funcs.get("totnit", [])) == 1:
+        fn = funcs["totnit"][0]
+        r = single_return(fn)
+        sn = fn.args.args[0].arg
+        if isinstance(r, ast.BinOp) and isinstance(r.op, ast.Add):
+            a, b = self_attr(r.left, sn), self_attr(r.right, sn)
+            other = b if a == counter else (a if b == counter else None)
+            if other and other != "_itstart":
+                ren[other] = "_itstart"
+    if len(funcs.get("_solve", [])) == 1:
+        fn = funcs["_solve"][0]
+        sn = fn.args.args[0].arg
+        cands = set()
+        for n in ast.walk(fn):
+            if isinstance(n, ast.Assign) and len(n.targets) == 1 and self_attr(n.targets[0], sn) and isinstance(n.value, ast.Attribute) and n.value.attr == "time" and self_attr(n.value.value, sn):
+                cands.add(n.targets[0].attr)
+        if len(cands) == 1:
+            t = next(iter(cands))
+            if t != "_time":
+                ren[t] = "_time"
+    if not ren:
+        return {}
+    # collisions are looked for in the modules that use the old names on self (the solver's own module)
+    home = [tree for tree in trees if any(isinstance(n, ast.Attribute) and n.attr in ren and isinstance(n.value, ast.Name) and n.value.id == "self" for n in ast.walk(tree))]
+    used = set()
+    for tree in home:
+        for n in ast.walk(tree):
+            if isinstance(n, ast.Attribute):
+                used.add(n.attr)
+    ren = {o: c for o, c in ren.items() if c not in used}
+    for tree in home:
+        for n in ast.walk(tree):
+            if isinstance(n, ast.Attribute) and n.attr in ren and isinstance(n.value, ast.Name) and n.value.id in ("self",):
+                n.attr = ren[n.attr]
+    return ren
